@@ -465,8 +465,13 @@ def _parse_facebook_url(url, allow_relative_urls=False):
         return FacebookUser(user_id)
 
     # People path
-    if splitted.path.startswith("/people"):
-        parts = pathsplit(splitted.path)
+    # NOTE: testing the first segment, not the string ("//people", "/peoples")
+    parts = pathsplit(splitted.path)
+
+    if parts and parts[0] == "people":
+        if len(parts) < 3:
+            return None
+
         user_id = parts[2]
         return FacebookUser(user_id)
 
